@@ -180,6 +180,15 @@ theorem C07_full_fails : ¬ C07_full := fun h => C07_witness_rate0.2.2 (h rateZe
 theorem get_frames_alloc_bounded (st : St) (idx : Int) (d : Bytes) : getFramesAlloc st idx d ≤ 2 * d.length :=
   getFramesAlloc_le st idx d
 
+/-- the F09 repair changes no successful decode: whatever the unguarded code (`getFramesOld`) returned, for any
+    state, offset and byte string, the repaired code returns too — the guard only turns a late `IndexError` (after
+    the allocation) into an early `ValueError` -/
+theorem repair_preserves_decodes (st : St) (idx : Int) (d : Bytes) (r : St × Bytes)
+    (h : getFramesOld st idx d = .ok r) : getFrames st idx d = .ok r :=
+  getFrames_of_old st idx d r h
+
+example : getFramesOld St.init (headerOffset exampleSnd) (encode exampleSnd) = .ok (⟨2, 16, 44100⟩, [2, 1, 4, 3, 6, 5, 8, 7]) := by rfl
+
 /-- whole decode: at most 2·|d| per command -/
 theorem decode_alloc_bounded (d : Bytes) : (sndAlloc d).1 ≤ 2 * d.length * (sndAlloc d).2 := by
   unfold sndAlloc
